@@ -165,10 +165,10 @@ WriteGroup(C, root, visited, isRoot) ==
 
 PqContext(S, kept, E, rot) ==
   [m |-> Len(kept), rot |-> rot, rigid |-> SeqToSet(PairsOf(E)) \ SeqToSet(rot),
-   line |-> [p \in 1..Len(kept) |-> PqAtomLine(S, kept, p)],
-   id |-> [p \in 1..Len(kept) |-> PqSerial(S, kept, p)]]
+   line |-> Eval([p \in 1..Len(kept) |-> PqAtomLine(S, kept, p)]),
+   id |-> Eval([p \in 1..Len(kept) |-> PqSerial(S, kept, p)])]
 PqLinesFor(S, kept, E, rot, rootIdx, useRoot) ==
-  WriteGroup(PqContext(S, kept, E, rot), rootIdx, {}, useRoot).lines
+  Bind(PqContext(S, kept, E, rot), LAMBDA C : WriteGroup(C, rootIdx, {}, useRoot).lines)
     \o (IF S.o.torsdof THEN <<TTORSDOF \o SP \o IntText(Len(rot))>> ELSE <<>>)
 
 (* ------------------------------------------------------------------ the torsion tree, declaratively *)
@@ -195,8 +195,8 @@ NestingOK(items) ==
   IN r.ok /\ r.st = <<>>
 (* serials: the serial numbers of the atoms kept; rotS: the rotatable bonds as sets of two serials *)
 PqTreeOK(lines, serials, rotS, useRoot, torsdof) ==
-  LET items == [k \in 1..Len(lines) |-> PqItem(lines[k])]
-      ap == PosOfKind(items, "atom")
+  Bind(Eval([k \in 1..Len(lines) |-> PqItem(lines[k])]), LAMBDA items :
+  LET ap == PosOfKind(items, "atom")
       written == [k \in 1..Len(ap) |-> items[ap[k]][2]]
       bp == PosOfKind(items, "branch")
       rp == PosOfKind(items, "root")   ep == PosOfKind(items, "endroot")   tp == PosOfKind(items, "torsdof")
@@ -211,7 +211,7 @@ PqTreeOK(lines, serials, rotS, useRoot, torsdof) ==
      /\ (IF useRoot THEN /\ Len(rp) = 1 /\ Len(ep) = 1 /\ rp[1] = 1 /\ ep[1] > 2
                          /\ \A q \in 2..(ep[1] - 1) : items[q][1] = "atom"
                     ELSE rp = <<>> /\ ep = <<>>)
-     /\ (IF torsdof THEN tp = <<Len(items)>> /\ items[Len(items)][2] = Cardinality(rotS) ELSE tp = <<>>)
+     /\ (IF torsdof THEN tp = <<Len(items)>> /\ items[Len(items)][2] = Cardinality(rotS) ELSE tp = <<>>))
 
 (* ------------------------------------------------------------------ the writer *)
 PqNamesOK(S) ==                                   \* the three documented refusals (all atoms handed over)
@@ -311,26 +311,28 @@ SerialOrder(rows) == SetToSortSeq(1..Len(rows), LAMBDA p, q : rows[p].serial < r
 
 PqReadRejected == [oc |-> "Rejected", nmodels |-> 0, atoms |-> <<>>, coords |-> <<>>]
 ReadPq(lines, sel) ==
-  LET kinds == PqKinds(lines)
-      st == PqStarts(kinds)   NM == Len(st)   ap == KindPos(kinds, "ATOM")   nl == Len(lines)
-      Rows(pos) == [i \in 1..Len(pos) |-> ReadPqAtom(lines[pos[i]])]
+  Bind(Eval(PqKinds(lines)), LAMBDA kinds :
+  Bind(Eval(PqStarts(kinds)), LAMBDA st :
+  Bind(Eval(KindPos(kinds, "ATOM")), LAMBDA ap :
+  LET NM == Len(st)   nl == Len(lines)
+      Rows(pos) == Eval([i \in 1..Len(pos) |-> ReadPqAtom(lines[pos[i]])])
   IN IF sel = <<>> THEN
-       LET per == [k \in 1..NM |-> InModel(st, k, nl, ap)] IN
+       Bind(Eval([k \in 1..NM |-> InModel(st, k, nl, ap)]), LAMBDA per :
        IF (\E k \in 1..NM : Len(per[k]) # Len(per[1])) \/ (\E p \in SeqToSet(ap) : p < st[1]) THEN PqReadRejected
-       ELSE LET rows == [k \in 1..NM |-> Rows(per[k])] IN
+       ELSE Bind(Eval([k \in 1..NM |-> Rows(per[k])]), LAMBDA rows :
             IF \E k \in 1..NM : \E i \in 1..Len(per[1]) : ~rows[k][i].ok THEN PqReadRejected
-            ELSE LET ord == SerialOrder(rows[1]) IN
+            ELSE Bind(Eval(SerialOrder(rows[1])), LAMBDA ord :
                  [oc |-> "ok", nmodels |-> NM,
                   atoms |-> [i \in 1..Len(ord) |-> PqAnnot(rows[1][ord[i]])],
-                  coords |-> [k \in 1..NM |-> [i \in 1..Len(ord) |-> rows[k][ord[i]].xyz]]]
+                  coords |-> [k \in 1..NM |-> [i \in 1..Len(ord) |-> rows[k][ord[i]].xyz]]])))
      ELSE LET k == IF sel[1] < 0 THEN NM + sel[1] + 1 ELSE sel[1] IN
           IF k < 1 \/ k > NM THEN PqReadRejected
-          ELSE LET rows == Rows(InModel(st, k, nl, ap)) IN
+          ELSE Bind(Rows(InModel(st, k, nl, ap)), LAMBDA rows :
                IF \E i \in 1..Len(rows) : ~rows[i].ok THEN PqReadRejected
-               ELSE LET ord == SerialOrder(rows) IN
+               ELSE Bind(Eval(SerialOrder(rows)), LAMBDA ord :
                     [oc |-> "ok", nmodels |-> 1,
                      atoms |-> [i \in 1..Len(ord) |-> PqAnnot(rows[ord[i]])],
-                     coords |-> << [i \in 1..Len(ord) |-> rows[ord[i]].xyz] >>]
+                     coords |-> << [i \in 1..Len(ord) |-> rows[ord[i]].xyz] >>])))))
 
 (* get_remarks(): the REMARK lines of a model without their first seven characters, joined by line breaks *)
 RemarkText(lines, pos) == JoinWith([i \in 1..Len(pos) |-> SubSeq(lines[pos[i]], 8, Len(lines[pos[i]]))], <<NL>>)
